@@ -989,7 +989,8 @@ fn main() {
     let g1 = e.s_bgp(&[marker.clone(), Op::Custom("x".into())], &[marker.clone(), Op::Write], &[tagged.clone(), plain.clone()]);
     let bmp_sess = |us: &[&Upd]| -> Vec<BmpIn> { let mut v = vec![BmpIn { kind: Kind::Init, pph_asn: 0, bad: false, upd: Upd::default() }, BmpIn { kind: Kind::PeerUp, pph_asn: 65000, bad: false, upd: Upd::default() }]; for u in us { v.push(BmpIn { kind: Kind::RouteMon, pph_asn: 65000, bad: false, upd: (*u).clone() }); } v };
     let g2 = e.s_bmp(&[marker.clone(), Op::Custom("x".into())], &[marker.clone(), Op::Write], &bmp_sess(&[&tagged, &plain]));
-    e.rec.variant("msg_stream", if leak_in(&g1) || leak_in(&g2) { "per-session" } else { "per-message" });
+    e.rec.variant("msg_stream_bgp", if leak_in(&g1) { "per-session" } else { "per-message" });
+    e.rec.variant("msg_stream_bmp", if leak_in(&g2) { "per-session" } else { "per-message" });
 
     let mut g = Gen { rng: Rng::new(args.seed) };
     let ns = if args.thorough { 1500 } else { 240 };
